@@ -1,7 +1,7 @@
 (* C20 — Quorum indexer medians and metrics follow their definition.
    Only theorem statements, each closed by [exact <lemma>], non-vacuity examples, Print Assumptions. *)
 From Coq Require Import NArith List Permutation.
-From LV Require Import model.VecIndex model.QuorumIdx spec.QuorumSpec spec.FcSpec proofs.FcSpecFast proofs.QuorumProofs.
+From LV Require Import model.VecIndex model.QuorumIdx spec.QuorumSpec spec.FcSpec proofs.FcSpecFast proofs.QuorumProofs proofs.VecMain proofs.QuorumGraph.
 Import ListNotations.
 Local Open Scope N_scope.
 
@@ -52,6 +52,13 @@ Theorem C20_metric_wraps : forall diff med self clock n,
   metric_spec diff med self (map (fun v => seq_of (hb_get clock v)) (List.seq 0 n)) n.
 Proof. exact metric_sum_is_spec. Qed.
 
+(* the observation read from the real vector index (ProcessEvent / GetMetricOf call
+   GetMergedHighestBefore) is the graph's: fork -> 2^31-2, else the highest seq of the validator
+   among the event's ancestors-or-self (C06) *)
+Theorem C20_observation_from_graph : forall n o a, wf_stream n o -> indexed o a ->
+  obs_clock n (merged (index_all n o) a) = map obs_of_spec (merged_spec n (dag_of o) a).
+Proof. exact obs_clock_graph. Qed.
+
 (* non-vacuity: a 4-validator history (weights 3,2,2,1, quorum 6) with a fork observation, a
    self event, clean and dirty reads; the hypotheses of the theorems hold and the values are non-trivial *)
 Definition ex_ws : list N := [3; 2; 2; 1].
@@ -83,3 +90,4 @@ Print Assumptions C20_matrix.
 Print Assumptions C20_medians.
 Print Assumptions C20_metric.
 Print Assumptions C20_metric_wraps.
+Print Assumptions C20_observation_from_graph.
